@@ -135,3 +135,35 @@ Example earnings_example :
   units (final d (init d) ops) = 24.
 Proof. exact ex_earnings. Qed.
 Print Assumptions earnings_example.
+
+(* bursts: several start presses inside one run of the event queue.
+   Full statement: every player added by a burst finds a full game price and pays it.  FALSE of the faithful model
+   and of the code (known finding start-burst-unpaid): every player_add_request of the burst is checked against
+   the same balance, the deductions come later (player_added) and are floored at 0.  [start_burst_partial] is the
+   statement with exactly the guard that excludes that class (balance covers all presses, or none). *)
+Theorem start_burst_refuted :
+  exists c ops, let d := derive c in let s := final d (init d) ops in
+    d_okb d = true /\ fp s = false /\ ingame s = true /\ game_full s = false /\ units s = d_upg d /\
+    let s' := apply_op d s (StartBurst 2) in
+    npl s' = npl s + 2 /\ units s - units s' < 2 * d_upg d.
+Proof. exact start_burst_refuted_l. Qed.
+Print Assumptions start_burst_refuted.
+
+Theorem start_burst_partial :
+  forall d s n, fp s = false -> ingame s = true -> game_full s = false -> 0 < d_upg d ->
+  (Z.of_nat (S n) * d_upg d <= units s ->
+     let s' := apply_op d s (StartBurst (S n)) in
+     units s' = units s - Z.of_nat (S n) * d_upg d /\ npl s' = npl s + Z.of_nat (S n) /\
+     a_paid s' = a_paid s + Z.of_nat (S n)) /\
+  (units s < d_upg d ->
+     apply_op d s (StartBurst (S n)) = s /\ e_not_enough (apply_ev d s (StartBurst (S n))) = Z.of_nat (S n)).
+Proof. exact start_burst_partial_l. Qed.
+Print Assumptions start_burst_partial.
+
+Example start_burst_example :
+  let d := derive ex_cfg in let s := final d (init d) [Coin 2; Coin 2; Start] in
+  fp s = false /\ ingame s = true /\ game_full s = false /\ 2 * d_upg d <= units s /\
+  npl (apply_op d s (StartBurst 2)) = 3 /\ units (apply_op d s (StartBurst 2)) = units s - 4 /\
+  e_not_enough (apply_ev d (init d) (StartBurst 3)) = 3.
+Proof. exact start_burst_example_l. Qed.
+Print Assumptions start_burst_example.
